@@ -295,6 +295,10 @@ def gen_c12_history(rng, nsteps):
             live.discard(h)
     c = {"op": "hist", "kind": "ta", "sym": "raw", "views": True, "universe": RAW_RULES + RAW_NEVER,
          "vstates": [0, 1, 2, 3, 4, 5], "steps": steps}
+    if rng.random() < 0.55:
+        # only some of the views are asked in this history (a view that is always asked can mask a defect of another one)
+        names = ["accept", "down", "contains", "used", "empty", "isfinal"]
+        c["vsel"] = sorted(rng.sample(names, rng.choice([1, 1, 2, 2, 3, 4])))
     if rng.random() < 0.25:
         # "huge" presentation: some states get numbers beyond 32 bits (the driver maps 10^9 + k to 2^33 + k and back)
         big = set(q for q in range(6) if rng.random() < 0.5) or {rng.randrange(6)}
